@@ -2654,6 +2654,9 @@ func (s *swamp) DeleteTreasure(key string, shadowDelete bool) error {
 		// feloldjuk a vigiliát, mert nincs több treasure a swampban és a Destroy megkövetelei a Vigil feloldását
 		s.CeaseVigil()
 		s.destroyIfEmpty()
+		// the caller's deferred CeaseVigil gives the vigil back once more: take it again, so that the counter of an
+		// instance that somebody else is already destroying does not lose a vigil that belongs to another request
+		s.BeginVigil()
 		return nil
 	}
 
@@ -2703,6 +2706,9 @@ func (s *swamp) CloneAndDeleteExpiredTreasures(howMany int32) ([]treasure.Treasu
 			"swamp", s.name.Get())
 		s.CeaseVigil()
 		s.destroyIfEmpty()
+		// the caller's deferred CeaseVigil gives the vigil back once more: take it again, so that the counter of an
+		// instance that somebody else is already destroying does not lose a vigil that belongs to another request
+		s.BeginVigil()
 	}
 
 	// return with the shifted treasures
@@ -2784,6 +2790,9 @@ func (s *swamp) CloneAndDeleteMatchingTreasures(beaconType BeaconType, order Bea
 	if s.beaconKey.Count() == 0 {
 		s.CeaseVigil()
 		s.destroyIfEmpty()
+		// the caller's deferred CeaseVigil gives the vigil back once more: take it again, so that the counter of an
+		// instance that somebody else is already destroying does not lose a vigil that belongs to another request
+		s.BeginVigil()
 	}
 
 	return claimedTreasures, capReached, nil
@@ -2851,6 +2860,9 @@ func (s *swamp) CloneAndDeleteTreasuresByKeys(keys []string) ([]treasure.Treasur
 	if s.beaconKey.Count() == 0 {
 		s.CeaseVigil()
 		s.destroyIfEmpty()
+		// the caller's deferred CeaseVigil gives the vigil back once more: take it again, so that the counter of an
+		// instance that somebody else is already destroying does not lose a vigil that belongs to another request
+		s.BeginVigil()
 	}
 
 	return result, nil
